@@ -217,9 +217,13 @@ def make_transcoder(
         if all(swaps):
             processes.append(("swap_input_endianess", swap_endianess))
         else:
+            channel_swaps = list(
+                swap for swap, stream in zip(swaps, data_streams)
+                for _ in range(max(1, stream.encoding.num_interleaved_channels))
+            )
             processes.append((
                 "swap_input_endianess_multi", 
-                lambda x: swap_endianess_multi(x, swaps)
+                lambda x: swap_endianess_multi(x, channel_swaps)
             ))
     
     # is byte swap needed at output?
